@@ -116,6 +116,12 @@ func c03Family(seed uint64, family string) *lib.Pair {
 			p.New.PutFile(name, nd)
 		}
 		p.New.PutFile("new-low.bin", mkLow(6))
+	case "delayed": // one large fresh file first in container order: many 4 MiB operations without any other message
+		p.New.PutFile("aaa-fresh.bin", lib.RandomBytes(41*lib.MB+777, r.Uint64()))
+		a := lib.RandomBytes(3*lib.BS+99, r.Uint64())
+		p.Old.PutFile("b.bin", a)
+		p.New.PutFile("b.bin", edit(a, 2))
+		p.New.PutFile("c-fresh.bin", lib.RandomBytes(9000, r.Uint64()))
 	case "big": // one file spanning > 4 MiB so several checkpoints fall inside one file
 		a := lib.RandomBytes(4*lib.MB+3*lib.BS+1234, r.Uint64())
 		p.Old.PutFile("big.bin", a)
@@ -178,6 +184,10 @@ func c03Cases(tier string, seed uint64, flavor string) []lib.Case {
 			}
 		}
 	}
+	// a consumer that asks once, then not for a long stretch of the stream, then again (the checkpoint it finally gets
+	// pairs a message offset with a source checkpoint that is tens of MiB older)
+	add(c03Spec{PairSeed: lib.Mix(seed, 35), Family: "delayed", Bowl: "fresh", Comp: lib.Comp{Algo: "none"}})
+	add(c03Spec{PairSeed: lib.Mix(seed, 35), Family: "delayed", Bowl: "overlay", Comp: lib.Comp{Algo: "gzip", Quality: 1}})
 	// bounded-progress families, one per (algorithm, quality class)
 	sized := []lib.Comp{{Algo: "gzip", Quality: 1}, {Algo: "gzip", Quality: 9}, {Algo: "brotli", Quality: 1}, {Algo: "brotli", Quality: 3}}
 	if tier == "thorough" {
@@ -332,6 +342,88 @@ func physOffset(cp *patcher.Checkpoint) (int64, int64, bool) {
 	return cp.FileIndex, wc.Offset, true
 }
 
+// c03Delayed: ShouldSave answers true once, false for `gap` calls, then always true; the run stops at the first
+// checkpoint it is given and is resumed from the serialized copy in a brand-new patcher and bowl.
+func c03Delayed(su *c03Setup, env *lib.Env, combo string, res *lib.Result) {
+	for gi, gap := range []int{3, 6, 9} {
+		work := filepath.Join(env.Scratch, fmt.Sprintf("delayed%d", gi))
+		if err := su.prepareWork(work); err != nil {
+			res.Inconclusive(err.Error())
+			return
+		}
+		p, b, tp, err := su.newRun(work, nil)
+		if err != nil {
+			res.Violate("setup-error", combo, err.Error())
+			return
+		}
+		var enc []byte
+		cons := &c03Consumer{should: func(call int) bool { return call == 1 || call > 1+gap }}
+		cons.onSave = func(idx int, cp *patcher.Checkpoint, e []byte) (patcher.AfterSaveAction, error) {
+			if cons.calls > 1+gap {
+				enc = e
+				return patcher.AfterSaveStop, nil
+			}
+			return patcher.AfterSaveContinue, nil
+		}
+		p.SetSaveConsumer(cons)
+		err = p.Resume(nil, tp, b)
+		b.Close()
+		if !isStop(err) || enc == nil {
+			if err != nil && !isStop(err) {
+				res.Violate("uninterrupted-error", combo, fmt.Sprintf("delayed schedule gap=%d: %v", gap, err))
+				return
+			}
+			res.Add("delayed_schedules_without_checkpoint", 1)
+			os.RemoveAll(work)
+			continue
+		}
+		cp, derr := decodeCheckpoint(enc)
+		if derr != nil {
+			res.Violate("checkpoint-not-gob-decodable", combo, derr.Error())
+			return
+		}
+		var srcOff, msgOff int64 = -1, -1
+		if cp.MessageCheckpoint != nil {
+			msgOff = cp.MessageCheckpoint.Offset
+			if cp.MessageCheckpoint.SourceCheckpoint != nil {
+				srcOff = cp.MessageCheckpoint.SourceCheckpoint.Offset
+			}
+		}
+		p2, b2, tp2, err := su.newRun(work, nil)
+		if err != nil {
+			res.Violate("resume-setup-error", combo, err.Error())
+			return
+		}
+		rerr, panicked, stack := lib.Guard(func() error { return p2.Resume(cp, tp2, b2) })
+		res.Add("resumes", 1)
+		res.Add("resumes_from_a_checkpoint_given_after_a_long_pause", 1)
+		res.Max("max_bytes_between_source_checkpoint_and_message_offset", msgOff-srcOff)
+		desc := fmt.Sprintf("ShouldSave true at call 1, false for %d calls, then true; checkpoint message offset %d, source checkpoint offset %d", gap, msgOff, srcOff)
+		switch {
+		case panicked:
+			res.Violate("resume-panic", combo, desc, rerr.Error(), stack)
+			return
+		case rerr != nil:
+			res.Violate("resume-error", combo, desc, rerr.Error())
+			return
+		}
+		if err := b2.Commit(); err != nil {
+			res.Violate("resume-commit-error", combo, desc, err.Error())
+			return
+		}
+		got, gerr := lib.ReadTree(su.resultDir(work))
+		if gerr != nil {
+			res.Inconclusive(gerr.Error())
+			return
+		}
+		if ds := lib.DiffBuilds(got, su.pair.New, false); len(ds) > 0 {
+			res.Violate("resume-mismatch:"+diffKinds(ds), append([]string{combo, desc}, lib.DiffStrings(ds, 6)...)...)
+		}
+		res.Feat = append(res.Feat, fmt.Sprintf("%s|delayed-gap=%d", combo, gap))
+		os.RemoveAll(work)
+	}
+}
+
 func c03Run(c lib.Case, env *lib.Env) lib.Result {
 	var s c03Spec
 	lib.ReadSpec(c, &s)
@@ -366,6 +458,10 @@ func c03Run(c lib.Case, env *lib.Env) lib.Result {
 		res.Add("combinations_over_stale_position_pools", 1)
 	}
 	combo := fmt.Sprintf("%s|%s|opt=%v|%s", s.Family, s.Bowl, s.Optimized, s.Comp)
+	if s.Family == "delayed" {
+		c03Delayed(su, env, combo, &res)
+		return res
+	}
 
 	// ---- U: uninterrupted always-save run, recording checkpoints and snapshots
 	type ck struct {
@@ -736,7 +832,7 @@ func init() {
 	lib.Register(&lib.Property{
 		ID:          "C03",
 		Level:       "fault_enumeration",
-		Rule:        "per (patch family, bowl, plain/optimized, compression): one uninterrupted always-save run records every checkpoint (gob-encoded at Save time) and snapshots the on-disk state there; then EVERY checkpoint index k (sampled above MaxK) x lag (disk state taken at checkpoint k+lag) x forward-only damage variant (in-progress file truncated / zero-filled at {off_k, off_k+1, midpoint, end-1}, later files removed / emptied / halved) is resumed in a brand-new patcher and bowl from the gob-decoded checkpoint, committed and compared with the new build; plus runs aborted mid-operation by an injected read error on the old build and chains of up to 3 further interruptions with a random save schedule. distinct = distinct (combination, k-class, lag, damage label, chain) tuples",
+		Rule:        "per (patch family, bowl, plain/optimized, compression): one uninterrupted always-save run records every checkpoint (gob-encoded at Save time) and snapshots the on-disk state there; then EVERY checkpoint index k (sampled above MaxK) x lag (disk state taken at checkpoint k+lag) x forward-only damage variant (in-progress file truncated / zero-filled at {off_k, off_k+1, midpoint, end-1}, later files removed / emptied / halved) is resumed in a brand-new patcher and bowl from the gob-decoded checkpoint, committed and compared with the new build; plus runs aborted mid-operation by an injected read error on the old build and chains of up to 3 further interruptions with a random save schedule; family `delayed` (41 MiB fresh file first): ShouldSave true once, false for 3/6/9 calls, then true, stop at the first checkpoint given, resume in a new patcher and bowl; odd combinations read the old build through a pool that hands a just-used reader back at an arbitrary position. distinct = distinct (combination, k-class, lag, damage label, chain) tuples",
 		Assumptions: []string{"crash = loss of any suffix of the bytes written after the checkpoint (no reordering inside the kernel); fsync does what it says", "crash points lie in the patching phase, the latest being 'patching finished, Commit not started'", "the snapshot taken inside Save equals the state a stop at that checkpoint leaves (same process, deterministic patcher)"},
 		Cases:       c03Cases,
 		Run:         c03Run,
